@@ -1,4 +1,5 @@
 import OH.Proofs.HintDatedWindow
+import OH.Proofs.HintDatedWide
 /-
 Layer B — dated ranges: the decidable side condition and the combined theorem.
 
@@ -6,15 +7,15 @@ Three paths of `MonthdayRange::Date`:
  * a single fixed day WITH a year, and a range whose start carries a year (`single_interval_from_bounds`):
    filter and hint read the same interval(s), sound for ANY offsets (OH/Proofs/HintDated.lean);
  * a single fixed day without a year, and the windowed general path (two yearless bounds): sound for day
-   offsets within ±30 000 000 days (±300 000 days when a bound is Easter), whatever the size of the shift
-   relative to a year
+   offsets within ±92 000 000 days (two fixed dates; a single day: the end offset only; ±300 000 days when a
+   bound is Easter), whatever the size of the shift relative to a year
    (OH/Proofs/HintDatedWindow.lean) — the search windows are centred on the year of `d - day offset`;
  * a single fixed day without a year whose occurrences are all empty (shifted end before shifted start):
    sound for ANY offsets (below).
 -/
 namespace OH.Model
 open OH.Model.Cal
-open OH.Proofs.EvalSpec (offSmallD offsSmallD)
+open OH.Proofs.EvalSpec (offSmallD offsSmallD offWideD offsWideD)
 
 /-! ### a yearless single day whose occurrences are all empty: any offsets -/
 
@@ -116,15 +117,16 @@ theorem MonthdayRange.date_hintOK_singleDayEmpty (m dd : Nat) (so eo : DateOffse
 /-! ### the paths together -/
 
 /-- decidable sufficient condition for the soundness of the dated hint: nothing for a single day with
-a year and for a start that carries a year (one interval); for a yearless single day: day offsets within
-±30 000 000 days, or every occurrence empty (the shifted end always before the shifted start, any offsets);
-for the windowed general path: day offsets within ±30 000 000 days — ±300 000 days when a bound is Easter
-(`offsSmallD`) — and an end without a year (the range has a defined meaning) -/
+a year and for a start that carries a year (one interval); for a yearless single day: the END day offset within
+±92 000 000 days (any start offset), or every occurrence empty (the shifted end always before the shifted start,
+any offsets); for the windowed general path: an end without a year (the range has a defined meaning) and day
+offsets within ±92 000 000 days when both dates are fixed (`offsWideD`), within ±300 000 days when a bound is
+Easter (`offsSmallD`) -/
 def datedHintSafe (s : DateSpec) (so : DateOffset) (e : DateSpec) (eo : DateOffset) : Bool :=
   match singleDayOf s e with
   | some (some _, _, _) => true
-  | some (none, _, _) => (offSmallD so && offSmallD eo) || decide (hiOff eo < loOff so)
-  | none => (dateYear s).isSome || ((dateYear e).isNone && offsSmallD s so e eo)
+  | some (none, _, _) => offWideD eo || decide (hiOff eo < loOff so)
+  | none => (dateYear s).isSome || ((dateYear e).isNone && (offsSmallD s so e eo || offsWideD s so e eo))
 
 /-- **Dated ranges**: under `datedHintSafe` the hint is sound on the whole evaluation window. -/
 theorem MonthdayRange.date_hintOK (s : DateSpec) (so : DateOffset) (e : DateSpec) (eo : DateOffset)
@@ -142,17 +144,27 @@ theorem MonthdayRange.date_hintOK (s : DateSpec) (so : DateOffset) (e : DateSpec
     | none =>
       have hy := (singleIntervalV_none_iff s so e eo hw).1 hsi
       simp only [datedHintSafe, hsd, hy, Option.isSome_none, Bool.false_or, Bool.and_eq_true,
-        Option.isNone_iff_eq_none] at hsafe
+        Option.isNone_iff_eq_none, Bool.or_eq_true] at hsafe
       obtain ⟨hey, hoff⟩ := hsafe
-      obtain ⟨hss, hes, L, hL1, hLs, hLe, hL⟩ := OH.Proofs.EvalSpec.offsSmallD_spec s so e eo hoff
       have hns : ¬ (s = e ∧ OH.Spec.isFixedDate s = true) := by
         rintro ⟨rfl, hfx⟩
         cases s with
         | easter yr => simp [OH.Spec.isFixedDate] at hfx
         | fixed yr m dd => simp [singleDayOf] at hsd
-      exact OH.Proofs.EvalSpec.dated_yearless_hintOK s so e eo ⟨ws, wso, hss, hL1, hLs⟩ ⟨we, weo, hes, hL1, hLe⟩ hL
-        (by rw [← OH.Proofs.EvalSpec.dateYear_eq]; exact hy)
-        (by rw [← OH.Proofs.EvalSpec.dateYear_eq]; exact hey) hns d hd1 hd2
+      rcases hoff with hoff | hoff
+      · obtain ⟨hss, hes, L, hL1, hLs, hLe, hL⟩ := OH.Proofs.EvalSpec.offsSmallD_spec s so e eo hoff
+        exact OH.Proofs.EvalSpec.dated_yearless_hintOK s so e eo ⟨ws, wso, hss, hL1, hLs⟩ ⟨we, weo, hes, hL1, hLe⟩ hL
+          (by rw [← OH.Proofs.EvalSpec.dateYear_eq]; exact hy)
+          (by rw [← OH.Proofs.EvalSpec.dateYear_eq]; exact hey) hns d hd1 hd2
+      · simp only [offsWideD, OH.Proofs.EvalSpec.fixedYearless, offWideD, Bool.and_eq_true, Bool.or_eq_true,
+          decide_eq_true_eq, Option.isNone_iff_eq_none, beq_iff_eq] at hoff
+        obtain ⟨⟨⟨⟨fs, ys⟩, ⟨fe, ye⟩⟩, hes⟩, hso⟩ := hoff
+        have hss : -92000000 ≤ so.days ∧ so.days ≤ 92000000 := by
+          rcases hso with h | h
+          · exact absurd ⟨h, fs⟩ hns
+          · exact h
+        exact OH.Proofs.EvalSpec.dated_yearless_hintOKW s so e eo ⟨ws, wso, fs, ys, hss⟩ ⟨we, weo, fe, ye, hes⟩
+          hns d hd1 hd2
   | some md =>
     -- `s = e = .fixed fy m dd`
     cases s with
@@ -165,10 +177,12 @@ theorem MonthdayRange.date_hintOK (s : DateSpec) (so : DateOffset) (e : DateSpec
         cases yr with
         | some fy => exact MonthdayRange.date_hintOK_singleDayYear fy m dd so eo hw d hd2
         | none =>
-          simp only [datedHintSafe, singleDayOf, if_true, Bool.or_eq_true, Bool.and_eq_true, offSmallD,
+          simp only [datedHintSafe, singleDayOf, if_true, Bool.or_eq_true, offWideD,
             decide_eq_true_eq] at hsafe
           rcases hsafe with hsafe | hsafe
-          · exact OH.Proofs.EvalSpec.dated_single_hintOK m dd so eo wso hsafe.1 weo hsafe.2 d hd1 hd2
+          · have hw'' := hw
+            simp only [MonthdayRange.wf, Bool.and_eq_true] at hw''
+            exact OH.Proofs.EvalSpec.dated_single_hintOKW m dd so eo hw''.1.1.2 hw''.2 hsafe d hd1 hd2
           · exact MonthdayRange.date_hintOK_singleDayEmpty m dd so eo hw hsafe d hd1 hd2
       · cases hsd
 
